@@ -34,7 +34,10 @@ MENU = ['role:admin', 'role:member', 'rule:svc:base', 'rule:nope',
         'user_id:%(user_id)s', 'is_admin:True', '@', '!', 'not role:admin',
         'role:member and project_id:%(project_id)s',
         'rule:svc:base or role:reader', 'domain_id:%(domain_id)s',
-        'project_id:%(target.project.id)s', 'not rule:nope']
+        'project_id:%(target.project.id)s', 'not rule:nope',
+        # checks that read the token's own fields as they stand
+        'roles:Admin', 'roles:admin', 'user.name:user',
+        'project.domain.id:d0', 'methods:password']
 DEFAULTS = [None, '!', 'role:admin']
 BOUNDS = {'quick': dict(menu2=8), 'thorough': dict(menu2=len(MENU))}
 
@@ -57,6 +60,10 @@ def gen_tokens():
                                                     'domain': {'id': 'd0'}})
         out['system-' + tag] = tok(roles, system={'all': True})
     out['domain-member'] = tok(['member'], domain={'id': 'd1', 'name': 'd'})
+    # role names are case-preserving data
+    out['project-MixedCase'] = tok(['Admin', 'ReadOnly'],
+                                   project={'id': 'p1', 'name': 'p',
+                                            'domain': {'id': 'd0'}})
     out['unscoped-admin'] = tok(['admin'])
     return out
 
